@@ -459,3 +459,13 @@ def iter_sum(m, st, fr, callee, args):
         v = deref(m, x)
         total = total + v
     return total
+
+
+@M.add(r"<core::slice::IterMut<'_, (f64|u64)> as IntoIterator>::into_iter|<core::slice::Iter<'_, (f64|u64)> as IntoIterator>::into_iter")
+def sliceiter_into_iter(m, st, fr, callee, args):
+    return args[0]
+
+
+@M.add(r"<core::slice::IterMut<'_, (f64|u64)> as Iterator>::next|<core::slice::Iter<'_, (f64|u64)> as Iterator>::next")
+def sliceiter_next(m, st, fr, callee, args):
+    return generic_next(m, st, fr, callee, args)
